@@ -1019,28 +1019,33 @@ func (ex *Exec) builtinMake(e *ast.CallExpr) Val {
 // appendSlices returns a fresh slice holding s followed by the elements of t.
 func (ex *Exec) appendSlices(s, t *T, elem types.Type) *T {
 	fn, srt := memFn(elem)
+	at := "at" + fn[3:]
 	base := ex.fresh("app", SInt)
 	n := Add(SLen(s), SLen(t))
 	c := ex.fresh("appcap", SInt)
 	k := Const("k", SInt)
+	r := MkSlice(base, I(0), n, c)
 	ex.assume(And(Lt(I(1), base), Le(n, c), Le(c, pow2(48)),
+		Forall([]string{"k"}, Imp(And(Le(I(0), k), Lt(k, SLen(s))), Eq(App(at, srt, r, k), App(at, srt, s, k))), App(at, srt, r, k)),
 		Forall([]string{"k"}, Imp(And(Le(I(0), k), Lt(k, SLen(s))), Eq(App(fn, srt, base, k), App(fn, srt, SBase(s), Add(SOff(s), k)))), App(fn, srt, base, k)),
 		Forall([]string{"k"}, Imp(And(Le(SLen(s), k), Lt(k, n)), Eq(App(fn, srt, base, k), App(fn, srt, SBase(t), Add(SOff(t), Sub(k, SLen(s)))))), App(fn, srt, base, k))))
-	r := MkSlice(base, I(0), n, c)
 	// appending nothing returns the original slice
 	return Ite(Eq(SLen(t), I(0)), s, r)
 }
 
 func (ex *Exec) appendOne(s *T, v *T, elem types.Type) *T {
 	fn, srt := memFn(elem)
+	at := "at" + fn[3:]
 	base := ex.fresh("app", SInt)
 	n := Add(SLen(s), I(1))
 	c := ex.fresh("appcap", SInt)
 	k := Const("k", SInt)
+	r := MkSlice(base, I(0), n, c)
+	// copy facts in at-form (arithmetic-free patterns on both the new and the old slice) and the new element
 	ex.assume(And(Lt(I(1), base), Le(n, c), Le(c, pow2(48)),
-		Forall([]string{"k"}, Imp(And(Le(I(0), k), Lt(k, SLen(s))), Eq(App(fn, srt, base, k), App(fn, srt, SBase(s), Add(SOff(s), k)))), App(fn, srt, base, k)),
-		Eq(App(fn, srt, base, SLen(s)), v)))
-	return MkSlice(base, I(0), n, c)
+		Forall([]string{"k"}, Imp(And(Le(I(0), k), Lt(k, SLen(s))), Eq(App(at, srt, r, k), App(at, srt, s, k))), App(at, srt, r, k)),
+		Eq(App(fn, srt, base, SLen(s)), v), Eq(App(at, srt, r, SLen(s)), v)))
+	return r
 }
 
 func (ex *Exec) builtinAppend(e *ast.CallExpr) Val {
